@@ -675,7 +675,31 @@ def _namedtuple_model_check():
     return ("namedtuple-model-agrees-with-cpython", bad == 0, detail or f"{n} constructor calls compared")
 
 
-lb_calculate_visible.static_checks = [_namedtuple_model_check]
+def _writes_within(target, allowed, callees=()):
+    """Static frame check (the engine does not generate one): the attributes of `self` assigned in the body of
+    `target` are within `allowed` (= the contract's `modifies`), and the methods of `self` it calls are `callees`
+    (whose own `modifies` are within `allowed`, or which are not reached under `requires`: stated per use)."""
+    import ast
+
+    from pyvc import source as SRC
+
+    def chk():
+        node = SRC.resolve(target).node
+        me = node.args.args[0].arg
+        stores = {n.attr for n in ast.walk(node) if isinstance(n, ast.Attribute) and isinstance(n.value, ast.Name) and n.value.id == me and isinstance(n.ctx, (ast.Store, ast.Del))}
+        called = {n.func.attr for n in ast.walk(node) if isinstance(n, ast.Call) and isinstance(n.func, ast.Attribute) and isinstance(n.func.value, ast.Name) and n.func.value.id == me}
+        ok = stores <= set(allowed) and called <= set(callees)
+        return ("writes-within-modifies", ok, f"assigned: {sorted(stores)}; self-methods called: {sorted(called)}")
+
+    return chk
+
+
+# calculate_visible: `_set_focus_complete` (step 0) is not reached under `requires` (no change pending: the call sits
+# under `if self.set_focus_pending or self.set_focus_valign_pending`); get_focus_offset_inset modifies nothing
+lb_calculate_visible.static_checks = [_namedtuple_model_check, _writes_within(LBX + "ListBox.calculate_visible", (), ("_set_focus_complete", "get_focus_offset_inset"))]
+lb_get_focus_offset_inset.static_checks = [_writes_within(LBX + "ListBox.get_focus_offset_inset", ())]
+lb_set_focus_valign_complete.static_checks = [_writes_within(LBX + "ListBox._set_focus_valign_complete", lb_set_focus_valign_complete.modifies, ("shift_focus",))]
+lb_render.static_checks = [_writes_within(LBX + "ListBox.render", lb_render.modifies, ("calculate_visible",))]
 
 
 @lemma("chain-rows-non-negative", property="C07")
